@@ -40,7 +40,8 @@ m = {
         "source_commits": ["8bd2d9b verif hooks: lambda/vhook pause points (no-op without -tags verif) at six sites",
                            "4022942 verif hooks: pause point invoke.beforeHandlerMutex (no-op without -tags verif)",
                            "0783417 verif hook: reset.serverCleared pause point (no-op without the verif build tag)",
-                           "8d65690 verif hook: rapi.next pause point at the top of the /runtime/invocation/next handler (no-op without the verif build tag)"],
+                           "8d65690 verif hook: rapi.next pause point at the top of the /runtime/invocation/next handler (no-op without the verif build tag)",
+                           "93e7b60 verif hook: fastinvoke.success pause point (no-op without the verif build tag)"],
         "add_only": True,
     },
     "engines": engines,
